@@ -13,6 +13,7 @@ LEVEL = "proof"
 COQ_FILES = ["Tie/C16_defs.v", "Tie/C16_tie.v", "Props/C16_props.v"]
 PROPS_FILES = ["C16_props.v"]
 TRUSTED_BASE = [
+    "vlib/pynorm.py (statement-level normalisation before the text-matching translator: parameterless helper methods inlined, single-assignment aliases of pure expressions substituted - configuration reads, or no call between definition and last use -, guard-continue undone; assumptions in DESIGN.md 12.7)",
     "py2gallina unit 'train loop' (Engine.training_loop body -> op list of coq/Model/C16.v; statements touching optimizer / scaler / scheduler / gradients must be classified, logging and checkpoint calls are skipped by an explicit list)",
     "semantics of the op language in coq/Model/C16.v (Backward adds the batch gradient at the current parameters; OptStep is an arbitrary function of parameters, gradient, schedule epoch)",
     "exact correspondence through the real Engine.train with a one-parameter model, SGD, dyadic gradients and learning rates (vlib/engine_harness.py)",
